@@ -154,3 +154,82 @@ pub async fn yield_now() {
     }
     YieldNow(false).await
 }
+
+
+/// tokio::task::block_in_place: the closure runs where it stands (on the multi-threaded runtime
+/// the other workers would take over the remaining tasks; the simulator has one "worker")
+pub fn block_in_place<F, R>(f: F) -> R
+where
+    F: FnOnce() -> R,
+{
+    yield_point();
+    f()
+}
+
+impl<T> JoinHandle<T> {
+    /// true once the task has produced its result (or panicked)
+    pub fn is_finished(&self) -> bool {
+        self.slot.lock().unwrap().value.is_some()
+    }
+    /// Cancellation is not modelled for blocking tasks (tokio cannot cancel a running one
+    /// either); an async task keeps running until the runtime shuts down.
+    pub fn abort(&self) {}
+}
+
+/// tokio::task::JoinSet on the simulator's executor
+pub struct JoinSet<T> {
+    handles: Vec<JoinHandle<T>>,
+}
+
+impl<T: Send + 'static> Default for JoinSet<T> {
+    fn default() -> Self {
+        Self::new()
+    }
+}
+
+impl<T: Send + 'static> JoinSet<T> {
+    pub fn new() -> Self {
+        JoinSet { handles: Vec::new() }
+    }
+    pub fn len(&self) -> usize {
+        self.handles.len()
+    }
+    pub fn is_empty(&self) -> bool {
+        self.handles.is_empty()
+    }
+    pub fn spawn<F>(&mut self, task: F)
+    where
+        F: Future<Output = T> + Send + 'static,
+    {
+        self.handles.push(spawn(task));
+    }
+    pub fn spawn_blocking<F>(&mut self, f: F)
+    where
+        F: FnOnce() -> T + Send + 'static,
+    {
+        self.handles.push(spawn_blocking(f));
+    }
+    /// the next task to finish, in completion order (ties: spawn order)
+    pub async fn join_next(&mut self) -> Option<Result<T, JoinError>> {
+        if self.handles.is_empty() {
+            return None;
+        }
+        std::future::poll_fn(|cx| {
+            for i in 0..self.handles.len() {
+                if let Poll::Ready(r) = Pin::new(&mut self.handles[i]).poll(cx) {
+                    self.handles.remove(i);
+                    return Poll::Ready(Some(r));
+                }
+            }
+            Poll::Pending
+        })
+        .await
+    }
+    pub fn abort_all(&mut self) {}
+    pub fn detach_all(&mut self) {
+        self.handles.clear();
+    }
+    pub async fn shutdown(&mut self) {
+        self.handles.clear();
+    }
+}
